@@ -1074,9 +1074,11 @@ func (w *gWorld) newAgent() (*Agent, error) {
 	var rules []AddressRewriteRule
 	switch c.rr {
 	case "drop":
-		// replace-mode rule whose only external address is of a family excluded by Networks: it compiles to an
-		// IPv4 catch-all with NO external address, i.e. "drop the matched relay candidate"
-		rules = append(rules, AddressRewriteRule{External: []string{gIP("x6.90").String()}, AsCandidateType: CandidateTypeRelay,
+		// the documented deny rule: replace mode, EMPTY External list, limited to IPv4 networks: it compiles to an IPv4
+		// catch-all with NO external address, i.e. "drop the matched relay candidate". (Until /repo 446b13f the option
+		// rejected an empty list (F16) and this shape was installed through the F15 quirk - an IPv6 external excluded by
+		// Networks; since /repo d6a4f83 such a rule matches nothing. The compiled mapping is the same as before.)
+		rules = append(rules, AddressRewriteRule{AsCandidateType: CandidateTypeRelay,
 			Mode: AddressRewriteReplace, Networks: []NetworkType{NetworkTypeUDP4}})
 	case "rep":
 		rules = append(rules, AddressRewriteRule{External: []string{gIP("x4.90").String()}, AsCandidateType: CandidateTypeRelay, Mode: AddressRewriteReplace})
@@ -1091,7 +1093,8 @@ func (w *gWorld) newAgent() (*Agent, error) {
 	case "app":
 		rules = append(rules, AddressRewriteRule{External: []string{gIP("x4.80").String()}, AsCandidateType: CandidateTypeServerReflexive, Mode: AddressRewriteAppend})
 	case "drop":
-		rules = append(rules, AddressRewriteRule{External: []string{gIP("x6.80").String()}, AsCandidateType: CandidateTypeServerReflexive,
+		// the documented deny rule (empty External list), as for the relay rule above
+		rules = append(rules, AddressRewriteRule{AsCandidateType: CandidateTypeServerReflexive,
 			Mode: AddressRewriteReplace, Networks: []NetworkType{NetworkTypeUDP4}})
 	}
 	if strings.HasPrefix(c.sr, "pin") {
